@@ -3,6 +3,7 @@ import json
 import os
 
 import gen
+import gen2
 
 ROOT = os.path.dirname(os.path.dirname(os.path.abspath(__file__)))
 
@@ -27,24 +28,133 @@ def load_corpus(prop):
     return out
 
 
-def budget(tier, quick, thorough):
+def B(tier, quick, thorough):
     return thorough if tier == "thorough" else quick
 
 
-SMALL = gen.universe(2, [2, 4, 6], [0, 1, -1, 2])
-
-
 def gen_c01(rng, tier):
-    n = budget(tier, 1200, 20000)
-    progs = gen.gen_binop_programs(rng, n // 2, gen.BINOPS_ARITH, SMALL)
-    progs += gen.gen_binop_programs(rng, n // 3, gen.BINOPS_ARITH, None)
-    progs += gen.gen_unop_programs(rng, n // 6, ["neg"], SMALL)
+    n = B(tier, 900, 20000)
+    return (gen2.gen_pointwise(rng, n, gen.BINOPS_ARITH) + gen2.gen_unary(rng, n // 6, ["neg"]))
+
+
+def gen_c02(rng, tier):
+    return gen2.gen_c02(rng, tier, B(tier, 350, 6000), B(tier, 300, 1296))
+
+
+def gen_c03(rng, tier):
+    return gen2.gen_c03(rng, B(tier, 700, 12000))
+
+
+def gen_c04(rng, tier):
+    return gen2.gen_pointwise(rng, B(tier, 600, 12000), gen.BINOPS_REL, followups=True)
+
+
+def gen_c05(rng, tier):
+    n = B(tier, 700, 12000)
+    sv = [gen2.Fraction(x) for x in (0, 0, 1, -2, gen2.Fraction(1, 2))]
+    return (gen2.gen_pointwise(rng, n, gen.BINOPS_LOGIC, scalar_vals=sv) +
+            gen2.gen_unary(rng, n // 4, ["invert", "make_boolean"]))
+
+
+def gen_c06(rng, tier):
+    return gen2.gen_c06(rng, B(tier, 900, 15000))
+
+
+def gen_c07(rng, tier):
+    return gen2.gen_c07(rng, B(tier, 900, 15000))
+
+
+def gen_c08(rng, tier):
+    return gen2.gen_c08(rng, B(tier, 500, 8000))
+
+
+def gen_c09(rng, tier):
+    return gen2.gen_c09(rng, B(tier, 350, 6000))
+
+
+def gen_c10(rng, tier):
+    progs = gen2.gen_c10(rng, B(tier, 350, 4000))
+    if tier == "thorough":
+        progs += gen2.gen_c10(rng, 0, exhaustive=True)
     return progs
 
 
-ARITH_ANCHORS = ["staircase/core/ops/arithmetic.py", "staircase/core/ops/common.py", "staircase/core/ops/rops.py",
-                 "staircase/util/__init__.py", "staircase/core/stairs.py"]
+def gen_c11(rng, tier):
+    return gen2.gen_c11(rng, B(tier, 350, 6000))
+
+
+def gen_c12(rng, tier):
+    return gen2.gen_c12(rng, B(tier, 600, 12000))
+
+
+def gen_c13(rng, tier):
+    return gen2.gen_c13(rng, B(tier, 500, 10000))
+
+
+def gen_c14(rng, tier):
+    return gen2.gen_c14(rng, B(tier, 400, 8000))
+
+
+def gen_c15(rng, tier):
+    if tier == "thorough":
+        return gen2.gen_c15(rng, 6000, exhaustive=True)
+    return gen2.gen_c15(rng, 1500, exhaustive=True)
+
+
+def gen_c16(rng, tier):
+    return gen2.gen_c16(rng, B(tier, 350, 6000))
+
+
+def gen_c17(rng, tier):
+    k = B(tier, 25, 400)
+    base = (gen2.gen_pointwise(rng, k * 2, gen.BINOPS_ARITH + gen.BINOPS_REL + gen.BINOPS_LOGIC) +
+            gen2.gen_c02(rng, tier, k, k) + gen2.gen_c03(rng, k) + gen2.gen_c06(rng, k) + gen2.gen_c07(rng, k) +
+            gen2.gen_c08(rng, k) + gen2.gen_c09(rng, k) + gen2.gen_c10(rng, k) + gen2.gen_c11(rng, k) +
+            gen2.gen_c18(rng, k) + gen2.gen_c19(rng, k) + gen2.gen_c20(rng, k))
+    return gen2.across_domains(base, rng, per=B(tier, 2, 8))
+
+
+def gen_c18(rng, tier):
+    return gen2.gen_c18(rng, B(tier, 600, 10000))
+
+
+def gen_c19(rng, tier):
+    return gen2.gen_c19(rng, B(tier, 250, 4000))
+
+
+def gen_c20(rng, tier):
+    return gen2.gen_c20(rng, B(tier, 500, 8000))
+
+
+OPS = "staircase/core/ops/"
+A_STAIRS = "staircase/core/stairs.py"
+A_UTIL = "staircase/util/__init__.py"
 
 PROPS = {
-    "C01": PropCheck(gen_c01, anchors=ARITH_ANCHORS),
+    "C01": PropCheck(gen_c01, anchors=[OPS + "arithmetic.py", OPS + "common.py", OPS + "rops.py", A_UTIL, A_STAIRS]),
+    "C02": PropCheck(gen_c02, anchors=["staircase/core/layering.py", A_STAIRS]),
+    "C03": PropCheck(gen_c03, mode=dict(normalise=False, closed=True), anchors=["staircase/core/sampling.py", A_STAIRS, A_UTIL]),
+    "C04": PropCheck(gen_c04, anchors=[OPS + "relational.py", OPS + "common.py"]),
+    "C05": PropCheck(gen_c05, anchors=[OPS + "logical.py", OPS + "common.py"]),
+    "C06": PropCheck(gen_c06, anchors=[OPS + "masking.py", OPS + "common.py"]),
+    "C07": PropCheck(gen_c07, anchors=[OPS + "masking.py"]),
+    "C08": PropCheck(gen_c08, anchors=["staircase/core/stats/statistic.py", "staircase/core/stats/distribution.py"]),
+    "C09": PropCheck(gen_c09, anchors=["staircase/core/stats/distribution.py", "staircase/core/stats/statistic.py", A_STAIRS]),
+    "C10": PropCheck(gen_c10, anchors=["staircase/core/stats/statistic.py", A_UTIL, OPS + "masking.py", "staircase/constants.py"], exhaustive=True),
+    "C11": PropCheck(gen_c11, anchors=["staircase/core/slicing.py", OPS + "masking.py", "staircase/core/stats/statistic.py"]),
+    "C12": PropCheck(gen_c12, mode=dict(normalise=False, closed=False),
+                     anchors=[A_STAIRS, OPS + "relational.py", OPS + "arithmetic.py", OPS + "masking.py", "staircase/core/layering.py"]),
+    "C13": PropCheck(gen_c13, mode=dict(normalise=True, closed=True),
+                     anchors=[A_UTIL, A_STAIRS, "staircase/core/layering.py", OPS + "masking.py", OPS + "arithmetic.py"]),
+    "C14": PropCheck(gen_c14, anchors=[A_STAIRS, "staircase/core/layering.py", "staircase/core/stats/statistic.py",
+                                       "staircase/core/stats/distribution.py", "staircase/core/accessor.py"]),
+    "C15": PropCheck(gen_c15, mode=dict(normalise=True, closed=True),
+                     anchors=[OPS + "common.py", "staircase/core/exceptions/__init__.py", OPS + "masking.py", A_STAIRS,
+                              "staircase/core/arrays/extension.py", "staircase/core/slicing.py"], exhaustive=True),
+    "C16": PropCheck(gen_c16, anchors=[A_STAIRS, OPS + "arithmetic.py", OPS + "common.py", OPS + "relational.py", "staircase/core/layering.py"]),
+    "C17": PropCheck(gen_c17, anchors=["staircase/core/sampling.py", OPS + "masking.py", "staircase/core/stats/statistic.py",
+                                       "staircase/core/layering.py", "staircase/core/slicing.py", "staircase/core/arrays/extension.py", A_UTIL]),
+    "C18": PropCheck(gen_c18, anchors=["staircase/core/arrays/extension.py", "staircase/core/arrays/__init__.py", "staircase/core/arrays/accessor.py"]),
+    "C19": PropCheck(gen_c19, anchors=["staircase/core/stats/statistic.py"]),
+    "C20": PropCheck(gen_c20, anchors=[A_STAIRS, "staircase/core/slicing.py"]),
 }
